@@ -9,6 +9,7 @@ use crate::model::refeval::{Eval, Host, Stop};
 use crate::model::refparse::{Layout, Tok, render};
 use crate::model::sx::Sx;
 use crate::model::value::{self, V, pair, readback, same, sym, text};
+use crate::model::valuepool;
 use garnish_lang_compiler::lex::TokenType;
 
 pub struct C01Check;
@@ -272,6 +273,60 @@ impl C01Check {
     }
 }
 
+impl C01Check {
+    /// judge a program given as text: read by the reference parser (independent operator table), evaluated by the reference
+    pub fn judge_text(&self, text: &str, input_ids: &[usize], ctx: &mut CaseCtx) {
+        ctx.render(|| format!("{:?}", text));
+        let toks = match crate::model::refparse::tokens_from_text(text) {
+            Ok(t) => t,
+            Err(_) => {
+                ctx.class("text-not-tokenised");
+                return;
+            }
+        };
+        let reference = match crate::model::refparse::Pratt::parse(&toks) {
+            Ok(r) => r,
+            Err(_) => {
+                ctx.class("reference-parser-rejects");
+                return;
+            }
+        };
+        let ast = reference.strip_groups();
+        let all_inputs = inputs();
+        let mut used: Vec<&'static str> = vec![];
+        let mut judged = 0;
+        for &ii in input_ids {
+            let input = &all_inputs[ii % all_inputs.len()];
+            for imp in Impl::BOTH {
+                ctx.sub_evals += 1;
+                match judge_one(imp, text, &toks, &reference, input, &mut used) {
+                    Verdict::Agree => judged += 1,
+                    Verdict::Skip(why) => {
+                        ctx.class(match why {
+                            "layout-merge" => "layout-merge",
+                            "reference-budget" => "reference-budget",
+                            _ => "reference-undefined",
+                        });
+                        break;
+                    }
+                    Verdict::Fail(kind, detail) => {
+                        judged += 1;
+                        let key = if kind.contains("panic") { String::new() } else { format!(":{}", minimal_key(imp, &ast, input, &kind, 0)) };
+                        ctx.fail(format!("{}:{}{}", kind, imp.name(), key), format!("{:?} with $ = {} on {}: {}", text, input, imp.name(), detail));
+                    }
+                }
+            }
+        }
+        if judged > 0 {
+            ctx.class("judged");
+            for u in &used {
+                ctx.class(u);
+            }
+            ctx.nontrivial(fnv(text.as_bytes()));
+        }
+    }
+}
+
 fn count_leaves(n: &Sx) -> usize {
     match n {
         Sx::Leaf(..) | Sx::Broken(_) => 1,
@@ -288,7 +343,7 @@ impl Check for C01Check {
         format!(
             "Phase exhaustive: every AST with at most k nodes (k=4 quick, 5 thorough) over {} leaves (number, float, text, symbol, unit, $?, $!, $, two identifiers), {} unary constructs (arithmetic/bitwise/logical prefixes, internal accessors, empty apply, {{ }}, ^~) and {} binary constructs \
              (arithmetic, bitwise, comparison, equality, logical, pair, space list, comma list, access, apply, apply-to, conditionals, else, `;`, blank line), in size order, printed with minimal parentheses from the independent operator table (the print is re-read by the reference parser and must give the AST back), spaced layout, x 2 input values (all 7 for ASTs of at most 3 nodes) x 2 data implementations. \
-             Phase control-flow-skeletons: every AST with at most 8 nodes (9 thorough) over the constants `$!` and `1`, `!!`, `??`, `?>`, `!>`, `|>`, `&&`, `||`, `+` and explicit parentheses (conditionals inside arms, defaults and operands of each other), x 2 input values x 2 implementations. Phase random: larger ASTs from a proptest tape (depth <= 6; keyed pairs, lists, conditional chains with defaults, applied nested expressions, counter-bounded reapply loops, side-effect blocks, sequencing), spaced and tight layouts, x 3 of 7 input values x 2 implementations. \
+             Phase control-flow-skeletons: every AST with at most 8 nodes (9 thorough) over the constants `$!` and `1`, `!!`, `??`, `?>`, `!>`, `|>`, `&&`, `||`, `+` and explicit parentheses (conditionals inside arms, defaults and operands of each other), x 2 input values x 2 implementations. Phase operators-on-value-pairs: every binary operator between every ordered pair of a pool of 50 values of all kinds (and every unary operator on each), read by the reference parser from the text. Phase random: larger ASTs from a proptest tape (depth <= 6; keyed pairs, lists, conditional chains with defaults, applied nested expressions, counter-bounded reapply loops, side-effect blocks, sequencing), spaced and tight layouts, x 3 of 7 input values x 2 implementations. \
              Oracle: read-back of the final current value must be structurally identical to the value a tree-walking reference evaluator assigns to the same text; a well-formed program must not be rejected, fail at run time or exceed 16x the reference's step count. \
              Programs whose meaning the reference leaves undefined (ill-formed shapes, recorded open findings such as else chains without default or list index past the end) are discarded and counted. \
              Non-trivial = judged program with >= 2 operator nodes using >= 2 construct kinds; distinct = distinct ASTs.",
@@ -310,6 +365,7 @@ impl Check for C01Check {
             Phase::exhaustive("exhaustive-asts", astgen::count_up_to(k)).with_chunk(2048),
             Phase::random("random-asts", tier.pick(60_000, 1_500_000), 160).with_min_tape(24).with_chunk(512),
             Phase::exhaustive("control-flow-skeletons", astgen::CONTROL.count_up_to(tier.pick(8, 9))).with_chunk(2048),
+            Phase::exhaustive("operators-on-value-pairs", valuepool::binary_program_count() + valuepool::unary_program_count()).with_chunk(1024),
         ]
     }
     fn run(&self, tier: Tier, phase: usize, input: &Input, ctx: &mut CaseCtx) {
@@ -340,6 +396,11 @@ impl Check for C01Check {
                     ctx.class("control-flow-skeleton");
                     self.judge_ast(&ast, &[0, 2], &[Layout::Spaced], ctx);
                 }
+            }
+            (3, Input::Index(i)) => {
+                let src = if *i < valuepool::binary_program_count() { valuepool::binary_program(*i) } else { valuepool::unary_program(*i - valuepool::binary_program_count()) };
+                ctx.class("operator-on-values");
+                self.judge_text(&src, &[0, 1], ctx);
             }
             (_, Input::Text(s)) => {
                 // hand-written regression: text is parsed by the reference parser? not available for raw text: run as smoke only
